@@ -193,41 +193,12 @@ def run(ctx, chk):
             consts['clockbound.h'] = m.group(1)
     except OSError:
         pass
+    used0 = common.segment_paths_used(fb)
+    if common.DAEMON in used0:
+        consts.setdefault('clock_bound_d', used0[common.DAEMON])     # the constant the daemon really opens (whatever its name)
     chk.ob('C01.W4', 'path:one-default-path', len(set(consts.values())) == 1 and {'clock_bound_d', 'clock_bound_client', 'clockbound.h'} <= set(consts), '',
            'default segment path per component: %s' % consts)
-    # the daemon really opens that constant; the Rust client's new() too
-    used = {}
-
-    def path_constants(q, ef):
-        """string constants the first argument of a call derives from (directly, or through Path::new / CString helpers)"""
-        out = set()
-        work = list(ef['args'][:1]) + [x for x in (ef.get('pointees') or [])[:1] if x is not None]
-        seen = set()
-        for _ in range(100):
-            if not work:
-                break
-            v = work.pop()
-            if v in seen:
-                continue
-            seen.add(v)
-            for x in psi.walk(v):
-                if x[0] == 'c' and isinstance(x[1], tuple) and x[1][0] == 's' and x[1][1].startswith('/'):
-                    out.add(x[1][1].rstrip('\0'))
-                if x[0] == 't' and x[1] == 'call' and isinstance(x[2][1], int) and x[2][1] < len(q.effects) and q.effects[x[2][1]]['kind'] == 'call':
-                    e2 = q.effects[x[2][1]]
-                    work += list(e2['args']) + [y for y in (e2.get('pointees') or []) if y is not None]
-        return out
-    for crate, callee_suffix in ((common.DAEMON, 'ShmWriter::new'), (common.CLIENT, 'new_with_path')):
-        for b in fb.bodies(crate):
-            if b.defkind == 'Closure' or not common.reaches_call(fb, b, lambda nm, cs=callee_suffix: nm.endswith(cs)):
-                continue
-            eng_w = common.mk_engine(fb, no_inline=lambda x, cr=crate: x.crate.name != cr or x.path.endswith(callee_suffix))
-            for q in eng_w.run(b):
-                for ef in q.effects:
-                    if ef['kind'] == 'call' and ef['callee'].endswith(callee_suffix):
-                        for s_ in path_constants(q, ef):
-                            used.setdefault(crate, set()).add(s_)
-    used = {k: (sorted(v)[0] if len(v) == 1 else 'several: %s' % sorted(v)) for k, v in used.items()}
+    used = common.segment_paths_used(fb)
     chk.ob('C01.W4', 'path:components-use-it', len(used) == 2 and set(used.values()) == set(consts.values()) and len(set(consts.values())) == 1, '',
            'paths actually passed to ShmWriter::new / new_with_path: %s' % used)
     # ---------------------------------------------------------------- W5 one record offset / type
